@@ -18,14 +18,15 @@ the code around them.
     rebuilt by `HTMLDependency(**json.loads(body))` (`rebuildC13`: the keyword call binds the dict to the signature of the
     *translated* `HTMLDependency.__init__`), first failure decides, answer `(text, deps)`.
   * one body (`src_rebuild_*C13`): a serialised body gives back the dependency — through `src_init` (Props/SrcC10b.lean), i.e.
-    through the source text of the constructor —; a text that is not JSON raises ValueError, JSON that is not an object
-    TypeError.  The model's `depOfJson` is a model of the constructor *on records* (it keeps the version text as written
+    through the source text of the constructor —; a text that is not JSON raises ValueError; JSON that is not an object,
+    an object with a key that is no parameter of the constructor or without `name` / `version`: TypeError.  The model's `depOfJson` is a model of the constructor *on records* (it keeps the version text as written
     and types the fields); on JSON objects that are not records (a `name` that is not a string, a version `packaging` refuses
     or normalises, items that are not dicts …) the Python constructor and `depOfJson` differ, and no theorem is stated.
   * `src_static_extract_modelC13` / `src_extract_roundtripC13`: = `extract`, for texts whose bodies are of the kinds above; in
     particular for every interleaving of text chunks (without the OPEN marker) and serialised copies of well-formed
     dependencies — `C13_extract_spec` said about the source text.
-  * `_extract_serialized_html_deps`, `__init__` (`src_extractC13`, `src_textdoc_initC13`, `…_modelC13` = `textDocInit`).
+  * `_extract_serialized_html_deps`, `__init__` (`src_extractC13`, `src_textdoc_initC13`, `…_modelC13` = `textDocInit`,
+    `src_textdoc_init_roundtripC13` = `C13_init` said about the source text).
   * `render` (`src_textdoc_renderC13` = `textDocRender`): see the theorem.  `HTMLDependency.as_html_tags` and `Tag.__init__`
     are not translated (`pyAsHtmlTagsC13`: a recorded parameter; `pyMkTagC13`: stated semantics on the shapes used).
   * `serialize_to_script_json` (`src_serializeC13` = `serNode`).
@@ -134,6 +135,62 @@ theorem src_rebuild_nonobjC13 (G : Globals) (e : SDep → PVal) (b : Str) (j : J
   | arr v => simp [rebuildC13, pyJsonLoadsC13, hp, recover, embRes, embErr, embJsonC13, pyCallKwC13, depOfJson]
 
 
+/-- a JSON object with a key that is no parameter of the constructor, or without `name` / `version`: TypeError from the
+    keyword call ("unexpected keyword argument" / "missing required argument") — what `recover` says -/
+theorem src_rebuild_badkeysC13 (G : Globals) (e : SDep → PVal) (b : Str) (ms : JMems) (hp : jsonParse b = some (.obj ms))
+    (hk : (ms.keys.all fun k => depKeys.contains k) = false ∨ ms.get? kName = none ∨ ms.get? kVersion = none) :
+    projDepC10b <$> rebuildC13 G b = embRes e (recover b) := by
+  have hrec : recover b = .error .typeError := by
+    simp only [recover, hp, depOfJson]
+    by_cases hall : (ms.keys.all fun k => depKeys.contains k) = true
+    · have hm : ms.get? kName = none ∨ ms.get? kVersion = none := by
+        rcases hk with h | h | h
+        · rw [hall] at h; cases h
+        · exact .inl h
+        · exact .inr h
+      simp only [hall, Bool.not_true, Bool.false_eq_true, if_false]
+      rcases hm with h | h
+      · rw [h]
+      · rw [h]
+        cases ms.get? kName with
+        | none => rfl
+        | some j => cases j <;> rfl
+    · simp only [Bool.not_eq_true] at hall
+      simp only [hall, Bool.not_false, if_true]
+  have hpy : pyCallKwC13 (newDepC13 G) depReqC13 depOptC13 (embJsonC13 (.obj ms)) = .error .typeError := by
+    simp only [embJsonC13, pyCallKwC13]
+    by_cases hbad : ((embJMemsC13 ms []).any fun kv => !(depReqC13.contains kv.1 || depOptC13.any fun p => p.1 == kv.1)) = true
+    · simp only [hbad, if_true]; rfl
+    · simp only [hbad, Bool.false_eq_true, if_false]
+      have hall : (ms.keys.all fun k => depKeys.contains k) = true := by
+        rw [List.all_eq_true]
+        intro k hk'
+        have hm : k ∈ (embJMemsC13 ms []).map Prod.fst := (mem_keys_embJMemsC13 ms [] k).mpr (.inr hk')
+        obtain ⟨kv, hkv, rfl⟩ := List.mem_map.mp hm
+        rw [← okKey_depKeysC13]
+        cases hc : (depReqC13.contains kv.1 || depOptC13.any fun p => p.1 == kv.1) with
+        | true => rfl
+        | false => exact absurd (List.any_eq_true.mpr ⟨kv, hkv, by rw [hc]; rfl⟩) hbad
+      have hmiss : ms.get? kName = none ∨ ms.get? kVersion = none := by
+        rcases hk with h | h | h
+        · rw [hall] at h; cases h
+        · exact .inl h
+        · exact .inr h
+      have : (depReqC13.any fun k => (Py.dictGet? k (embJMemsC13 ms [])).isNone) = true := by
+        simp only [depReqC13, List.any_cons, List.any_nil, Bool.or_false, Bool.or_eq_true]
+        rcases hmiss with h | h
+        · left
+          have hn := (get?_none_iffC13 ms kName).mp h
+          have : ¬ ((Py.dictGet? kName (embJMemsC13 ms [])).isSome = true) := fun hs =>
+            hn (by simpa using (mem_keys_embJMemsC13 ms [] kName).mp ((dictGet?_isSome_memC13 _ _).mp hs))
+          cases hd : Py.dictGet? kName (embJMemsC13 ms []) <;> simp_all [kName]
+        · right
+          have hn := (get?_none_iffC13 ms kVersion).mp h
+          have : ¬ ((Py.dictGet? kVersion (embJMemsC13 ms [])).isSome = true) := fun hs =>
+            hn (by simpa using (mem_keys_embJMemsC13 ms [] kVersion).mp ((dictGet?_isSome_memC13 _ _).mp hs))
+          cases hd : Py.dictGet? kVersion (embJMemsC13 ms []) <;> simp_all [kVersion]
+      simp [this]
+  simp only [rebuildC13, pyJsonLoadsC13, hp, pure_eq_ok, ok_bind, hpy, hrec, embRes, embErr, map_error]
 /-- … against the model: if rebuilding each body that is kept does what the model's `recover` says (`hrec`: discharged for
     serialised bodies by `src_rebuild_serBodyC13`, for texts that are not JSON / not a record by `src_rebuild_*C13` below),
     the function computes the model's `extract` — remaining text, one dependency per distinct body in order of first
@@ -161,6 +218,28 @@ theorem src_static_extract_modelC13 (h : HTMLTextDocument_static_extract_availab
       simp only [map_ok, Except.ok.injEq] at hA
       simp [embRes, embExtractC13, projExtractC13, hA]
 
+/-- every body of an interleaving of text chunks (without the OPEN marker) and serialised copies of well-formed
+    dependencies is rebuilt as the model's `recover` says (the hypothesis of the `…_modelC13` theorems) -/
+theorem src_rebuild_interleaveC13 (hi0 : HTMLDependency_init_available = true) (h1 : HTMLDependency_validate_dicts_available = true)
+    (h2 : HTMLDependency_validate_dict_available = true) (G : Globals) (t0 : Str) (items : List Item) (rk : Str → Nat)
+    (h0 : ¬ openMarker <:+: t0) (hi : ∀ it ∈ items, ¬ openMarker <:+: it.2.2)
+    (hw : ∀ it ∈ items, it.2.1.wellFormed = true) (hnd : ∀ it ∈ items, SDepNodupC13 it.2.1)
+    (hver : ∀ it ∈ items, G.mkVersion it.2.1.info.version
+      = some (versionObjC10b (rk it.2.1.info.version) it.2.1.info.version)) :
+    ∀ b ∈ tdDedupKeepFirst (scan (interleave t0 items).length (interleave t0 items)).2,
+      projDepC10b <$> rebuildC13 G b = embRes (fun d => embSDepC13 (rk d.info.version) d) (recover b) := by
+  have hlen : items.length ≤ (interleave t0 items).length := by
+    rw [interleave_eq]; simpa using length_interleaveB t0 (items.map fun it => (it.body, it.2.2))
+  have hs := scan_interleave t0 items _ hlen h0 hi
+  intro b hb
+  rw [hs] at hb
+  have hb' := mem_dedupGoC13 _ _ _ hb
+  simp only [List.mem_map] at hb'
+  obtain ⟨it, hit, rfl⟩ := hb'
+  rw [show it.body = serBody it.1 it.2.1 from rfl, recover_serBody _ _ (hw it hit),
+    src_rebuild_serBodyC13 hi0 h1 h2 G it.1 it.2.1 _ (hw it hit) (hnd it hit) (hver it hit)]
+  simp only [embRes, norm_versionC13, embSDep_normC13]
+
 /-- **round trip through text, as the source has it**: for text chunks without the OPEN marker around serialised copies
     (any indents) of well-formed dependencies, `_static_extract_serialized_html_deps` returns the text with exactly the
     serialised elements removed and, once per distinct serialisation in order of first appearance, the dependency that
@@ -176,20 +255,9 @@ theorem src_extract_roundtripC13 (h : HTMLTextDocument_static_extract_available 
     projExtractC13 <$> HTMLTextDocument_static_extract G (.str (interleave t0 items))
       = .ok (.tuple [.str (remText t0 items),
           .list ((dedupOn Item.body items).map fun it => embSDepC13 (rk it.2.1.info.version) it.2.1)]) := by
-  have hlen : items.length ≤ (interleave t0 items).length := by
-    rw [interleave_eq]; simpa using length_interleaveB t0 (items.map fun it => (it.body, it.2.2))
-  have hs := scan_interleave t0 items _ hlen h0 hi
-  rw [src_static_extract_modelC13 h G _ rk, extract_interleave t0 items h0 hi hw]
-  · simp only [embRes, embExtractC13, List.map_map, Function.comp_def, norm_versionC13, embSDep_normC13]
-  · intro b hb
-    rw [hs] at hb
-    have hb' := mem_dedupGoC13 _ _ _ hb
-    simp only [List.mem_map] at hb'
-    obtain ⟨it, hit, rfl⟩ := hb'
-    rw [show it.body = serBody it.1 it.2.1 from rfl, recover_serBody _ _ (hw it hit),
-      src_rebuild_serBodyC13 hi0 h1 h2 G it.1 it.2.1 _ (hw it hit) (hnd it hit) (hver it hit)]
-    simp only [embRes, norm_versionC13, embSDep_normC13]
-
+  rw [src_static_extract_modelC13 h G _ rk (src_rebuild_interleaveC13 hi0 h1 h2 G t0 items rk h0 hi hw hnd hver),
+    extract_interleave t0 items h0 hi hw]
+  simp only [embRes, embExtractC13, List.map_map, Function.comp_def, norm_versionC13, embSDep_normC13]
 
 /-- `_extract_serialized_html_deps()` as the source has it, on any instance whose `_html` is a `str` and whose `_deps` is a
     list (of anything): `_html` becomes the remaining text, the rebuilt dependencies are appended to `_deps`; a failing
@@ -285,6 +353,30 @@ theorem src_textdoc_init_modelC13 (h : HTMLTextDocument_init_available = true) (
       simpa using hc
     simp only [hc', if_true, map_error, embRes, embErr]
 
+
+/-- **the constructor on such a text** (`C13_init` said about the source text): `HTMLTextDocument(text, deps, placeholder)`
+    holds the text without the serialised elements and the given dependencies followed by the extracted ones -/
+theorem src_textdoc_init_roundtripC13 (h : HTMLTextDocument_init_available = true) (h' : HTMLTextDocument_extract_available = true)
+    (h'' : HTMLTextDocument_static_extract_available = true)
+    (hi0 : HTMLDependency_init_available = true) (h1 : HTMLDependency_validate_dicts_available = true)
+    (h2 : HTMLDependency_validate_dict_available = true) (G : Globals) (cls : String) (t0 : Str) (items : List Item)
+    (gs : List SDep) (ph : Str) (rk : Str → Nat)
+    (h0 : ¬ openMarker <:+: t0) (hi : ∀ it ∈ items, ¬ openMarker <:+: it.2.2)
+    (hw : ∀ it ∈ items, it.2.1.wellFormed = true) (hnd : ∀ it ∈ items, SDepNodupC13 it.2.1)
+    (hver : ∀ it ∈ items, G.mkVersion it.2.1.info.version
+      = some (versionObjC10b (rk it.2.1.info.version) it.2.1.info.version)) :
+    projDocC13 <$> HTMLTextDocument_init G (.obj cls []) (.str (interleave t0 items))
+        (.list (gs.map fun d => embSDepC13 (rk d.info.version) d)) (.str ph)
+      = .ok (textDocObjC13 cls (remText t0 items)
+          ((gs ++ (dedupOn Item.body items).map fun it => it.2.1.norm).map fun d => embSDepC13 (rk d.info.version) d)
+          (.str ph)) := by
+  have := src_textdoc_init_modelC13 h h' h'' G cls (interleave t0 items) (some gs) (some ph) rk
+    (src_rebuild_interleaveC13 hi0 h1 h2 G t0 items rk h0 hi hw hnd hver)
+  have hm : textDocInit (interleave t0 items) (some gs) (some ph)
+      = .ok (remText t0 items, gs ++ (dedupOn Item.body items).map fun it => it.2.1.norm) := by
+    simp [textDocInit, extract_interleave t0 items h0 hi hw]
+  rw [hm] at this
+  exact this
 
 /-- `TagList.render()` as the source has it, on a list of *plain* nodes (tags, text, `HTML`, self-rendering objects, metadata
     nodes; no dependency object, no un-expanded tagifiable object — Lemmas/SrcRenderC13.lean): `tagify()` gives the list
